@@ -427,10 +427,11 @@ Fixpoint html_element (c : oconfig) (parent : option anode) (node : anode) (inde
         match push_snippet st with
         | Some st' => st'
         | None =>
-            match an_value node with
-            | Some ((_ :: _) as value) => next (push_tokens c value st)
-            | _ => st
-            end
+            (* a text-only node; its text may be empty (`{}`): the children are written either way (repaired) *)
+            next (match an_value node with
+                  | Some ((_ :: _) as value) => push_tokens c value st
+                  | _ => st
+                  end)
         end
     end in
   let st :=
